@@ -10,11 +10,12 @@ for d in /verif/seeded/*/; do
   [ -n "$1" ] && [ "$1" != "$ID" ] && continue
   git checkout -q -- . ; git clean -qfd -e target
   FEAT=""; grep -q "test_phf" $d/seeded_demo.rs 2>/dev/null && FEAT="--features test_phf"
-  [ -f $d/demo.sh ] && cp $d/demo.sh $WT/demo.sh && chmod +x $WT/demo.sh
   for sub in $d/*/; do [ -d "$sub" ] && cp -r "$sub" $WT/; done
   cp $d/seeded_demo.rs strum_tests/tests/seeded_demo.rs
   # (a seed that needs another build configuration — release profile, another feature set, an extra crate — brings its own demo.sh)
-  DEMO="cargo test -p strum_tests --offline $FEAT --test seeded_demo"; [ -f $d/demo.sh ] && DEMO="bash ./demo.sh"
+  DEMO="cargo test -p strum_tests --offline $FEAT --test seeded_demo"
+  # (the agents' demo.sh files name their own scratch worktree; what matters is the profile they ask for)
+  [ -f $d/demo.sh ] && grep -q "cargo test.*--release" $d/demo.sh && DEMO="cargo test --release -p strum_tests --offline $FEAT --test seeded_demo"
   $DEMO > /tmp/sv_${ID}_clean.log 2>&1; CLEAN=$?
   rm -f strum_tests/tests/seeded_demo.rs
   git apply $d/patch.diff || { echo "$ID: patch does not apply"; continue; }
